@@ -6,23 +6,47 @@ From FB Require Import Model.Readdir Proofs.Readdir Proofs.ReaddirStep Proofs.Re
 Import ListNotations.
 Local Open Scope N_scope.
 
-(* the full statement: sizes only have to hold the next entry *)
-Definition C16_full_stmt : Prop :=
+(* what the statement asks of a size: it can hold the next entry (hence at least a 24-byte record) *)
+Definition full_size_ok (plus : bool) (size : N) (rest : list hent) : Prop :=
+  24 <= size /\ spec_size_ok plus size rest.
+
+(* the full statement for a source tree with repairs [X]: sizes only have to hold the next entry *)
+Definition C16_full_stmt (X : rfixes) : Prop :=
   forall plan H C pre rest st off plus,
+  c_rx C = X ->
   good_dir (pre ++ rest) -> seekable H (pre ++ rest) -> lookups_ok H (pre ++ rest) ->
   wrap_total (c_wrap C) -> InvSt (pre ++ rest) st ->
   (c_noopendir C = false -> forall m, In m plan -> hs_open (st_h st (ms_handle m)) = true) ->
   off_at pre off ->
-  plan_ok spec_size_ok H C (pre ++ rest) st off plus plan ->
+  plan_ok full_size_ok H C (pre ++ rest) st off plus plan ->
   (length (visible rest) < length plan)%nat ->
   exists replies,
     listing H C (pre ++ rest) st off plus plan = map ROk (replies ++ [[]]) /\
     concat replies = map (mkd H (c_wrap C) plus) (visible rest).
 
+Lemma plan_ok_ext (ok1 ok2 : bool -> N -> list hent -> Prop) H C d plus :
+  (forall size rest, ok1 plus size rest -> ok2 plus size rest) ->
+  forall plan st off, plan_ok ok1 H C d st off plus plan -> plan_ok ok2 H C d st off plus plan.
+Proof.
+  intros Himp. induction plan as [|m t IH]; intros st off; [exact (fun x => x)|].
+  cbn [plan_ok]. cbv zeta. intros (Hnz & Hok & Hrest). split; [exact Hnz|]. split; [apply Himp; exact Hok|].
+  destruct (fst (step H C d (snd (run H C d st (ms_noise m))) (mk_req (ms_handle m) (ms_size m) off plus)));
+    [apply IH; exact Hrest|exact I].
+Qed.
+
+(* on a tree with the re-read loop the full statement holds outright *)
+Lemma C16_full_fixed X : rx_refill X = true -> C16_full_stmt X.
+Proof.
+  intros HX plan H C pre rest st off plus HC Hg Hs Hl Hw Hi Hop Ho Hpl Hlen.
+  apply listing_complete; try assumption.
+  apply (plan_ok_ext full_size_ok (size_ok (c_rx C))); [|exact Hpl].
+  intros size r Hok. unfold size_ok. rewrite HC, HX. exact Hok.
+Qed.
+
 (* witness: directory [".", "a"], two requests of 32 bytes (a fuse_dirent for "a" takes 32) *)
 Definition w_dir : list hent := [mk_hent [46] 10 1 4; mk_hent [97] 11 2 8].
 Definition w_host : host := mk_host (fun _ => 0%nat) (fun _ => 0) (fun _ => ROk (7, 11)).
-Definition w_cfg : cfg := mk_cfg false (fun i => ROk i).
+Definition w_cfg : cfg := mk_cfg false (fun i => ROk i) no_rfixes.
 Definition w_plan : list mstep := [mk_mstep [] 1 32; mk_mstep [] 1 32].
 
 Lemma w_good : good_dir w_dir.
@@ -42,10 +66,11 @@ Proof. intros i. exists i. reflexivity. Qed.
 Lemma w_inv : InvSt w_dir (init_state [1]).
 Proof. intros h. unfold Inv_h, init_state. cbn [st_h]. destruct (existsb (N.eqb h) [1]); exact I. Qed.
 
-Lemma C16_full_refuted : ~ C16_full_stmt.
+Lemma C16_full_refuted : ~ C16_full_stmt no_rfixes.
 Proof.
   intros Hfull.
   destruct (Hfull w_plan w_host w_cfg [] w_dir (init_state [1]) 0 false) as (replies & Hl & Hc).
+  - reflexivity.
   - exact w_good.
   - exact w_seekable.
   - exact w_lookups.
@@ -53,7 +78,7 @@ Proof.
   - exact w_inv.
   - intros _ m [<-|[<-|[]]]; reflexivity.
   - left. auto.
-  - cbn. unfold spec_size_ok. cbn. repeat split; try discriminate; try lia.
+  - cbn. unfold full_size_ok, spec_size_ok. cbn. repeat split; try discriminate; try lia.
   - cbn. lia.
   - vm_compute in Hl.
     destruct replies as [|r1 [|r2 rs]]; cbn in Hl; try discriminate.
@@ -63,10 +88,17 @@ Qed.
 
 (* non-vacuity of the partial theorem: same directory, sizes that the code needs (48 + 24) *)
 Definition w_plan_ok : list mstep := [mk_mstep [mk_req 1 4096 2 true] 1 48; mk_mstep [] 1 48].
-Lemma w_plan_ok_holds : plan_ok step_ok w_host w_cfg w_dir (init_state [1]) 0 false w_plan_ok.
-Proof. cbn. unfold step_ok. cbn. repeat split; try discriminate; try lia. Qed.
+Lemma w_plan_ok_holds : plan_ok (size_ok no_rfixes) w_host w_cfg w_dir (init_state [1]) 0 false w_plan_ok.
+Proof. cbn. unfold size_ok, step_ok. cbn. repeat split; try discriminate; try lia. Qed.
 Lemma w_listing_value :
   listing w_host w_cfg w_dir (init_state [1]) 0 false w_plan_ok
+  = [ROk [mk_dirent 7 2 8 [97] 0]; ROk []].
+Proof. vm_compute. reflexivity. Qed.
+
+(* the refutation witness on a tree with the re-read loop: the 32-byte requests now list the directory *)
+Definition w_cfg_fixed : cfg := mk_cfg false (fun i => ROk i) all_rfixes.
+Lemma w_listing_fixed :
+  listing w_host w_cfg_fixed w_dir (init_state [1]) 0 false w_plan
   = [ROk [mk_dirent 7 2 8 [97] 0]; ROk []].
 Proof. vm_compute. reflexivity. Qed.
 
